@@ -224,10 +224,13 @@ def worker_main(argv):
             continue
         rng = np.random.default_rng(stable_hash(a.seed, a.pid, kind, idx))
         rec.begin(kind, idx)
+        tc = time.time()
         try:
             mod.check(rec, kind, idx, rng, a.tier)
         except Exception:
             rec.harness_errors.append({'kind': kind, 'idx': idx, 'tb': traceback.format_exc()[-3000:]})
+        rec.mx('slowest_case_seconds', round(time.time() - tc, 1))
+    rec.mx('slowest_worker_seconds', round(time.time() - t0, 1))
     if hasattr(mod, 'finish_worker'):
         try:
             mod.finish_worker(rec)
